@@ -2,6 +2,7 @@ import LenaModel.Model.C16
 import LenaModel.Lemmas.C16
 import LenaModel.Lemmas.C16Run
 import LenaModel.Lemmas.C16Acc
+import LenaModel.Lemmas.C16Yor
 /-! # C16 — property theorems: `FillRequest` processes the flow in consecutive blocks, however driven
 
 The wrapped element is abstract (`El σ α β`: any state type, any `fill`/`request`/`reset`/`run`);
@@ -146,6 +147,14 @@ theorem run_blocks_fresh (e : El σ α β) (c : Cfg) (hN : 0 < c.bufsize) (hr : 
         (fun b => if b.length = c.bufsize ∨ c.yor = true then (blockOf e c s0 b).1 else []) := by
   rw [run_blocks e c hN, hr]
   exact specBlocks_fresh _ _ _ _ s0 hreset hN _ xs (Nat.le_refl _)
+
+/-- non-vacuity: a run element behind `buffer_output`, block size 3, reset on; a fill/request element
+with `yield_on_remainder`, no reset; the recording element's `reset` restores `[]` -/
+example : (runFR lstEl ⟨3, true, false, false, .runRun, false, false, true, false⟩ [] [0, 1, 2, 3, 4, 5, 6]).1
+    = [[0, 1, 2], [3, 4, 5]] := by decide +kernel
+example : (runFR lstEl ⟨3, false, false, true, .runFillCompute, true, true, true, false⟩ [] [0, 1, 2, 3, 4, 5, 6]).1
+    = [[0, 1, 2], [0, 1, 2, 3, 4, 5], [0, 1, 2, 3, 4, 5, 6]] := by decide +kernel
+example : ∀ s : List Nat, (lstEl : El (List Nat) Nat (List Nat)).reset s = [] := fun _ => rfl
 
 /-- **`run` yields nothing for an empty flow** (any configuration, any element state) -/
 theorem run_empty (e : El σ α β) (c : Cfg) (s : σ) : (runFR e c s []).1 = [] := by
@@ -313,6 +322,48 @@ example : splitFR lstEl 3 true true false (some 2) [] [0, 1, 2, 3, 4, 5, 6] = [[
 example : splitFR lstEl 3 true false false (some 7) [] [0, 1, 2, 3, 4, 5, 6] = [[0, 1, 2], [3, 4, 5]] := by
   decide +kernel
 
+/-! ### `yield_on_remainder` under an arbitrary schedule -/
+
+/-- the segments of values between consecutive `request()` calls; `cur` is the segment being filled,
+closed by the final request -/
+def segments : List (Op α) → List α → List (List α)
+  | [], cur => [cur]
+  | .fill x :: r, cur => segments r (cur ++ [x])
+  | .request :: r, cur => cur :: segments r []
+
+theorem schedule_yor_aux (e : El σ α β) (N : Nat) (rst bi : Bool) (hN : 0 < N) :
+    ∀ (ops : List (Op α)) (cur : List α) (el : σ),
+    (runOps e N rst bi true (ops ++ [.request]) (cur.foldl (fillR e N rst bi) (zeroSt el))).1.flatten =
+      (emitAll e rst el ((segments ops cur).flatMap (chunks N))).1
+  | [], cur, el => by
+    simp only [List.nil_append, runOps, segments, List.flatMap_cons, List.flatMap_nil, List.append_nil,
+      List.flatten_cons, List.flatten_nil]
+    rw [segment_yor e N rst bi hN]
+  | .fill x :: r, cur, el => by
+    have ih := schedule_yor_aux e N rst bi hN r (cur ++ [x]) el
+    rw [List.foldl_append] at ih
+    simpa [runOps, segments] using ih
+  | .request :: r, cur, el => by
+    have ih := schedule_yor_aux e N rst bi hN r [] (emitAll e rst el (chunks N cur)).2
+    simp only [List.cons_append, runOps, segments, List.flatMap_cons, List.flatten_cons]
+    rw [segment_yor e N rst bi hN, emitAll_append]
+    simp only [List.foldl_nil] at ih
+    rw [ih]
+
+/-- **With `yield_on_remainder`** the adapter under any history of `fill`/`request` calls (closed by
+a request) yields, segment by segment, what the element yields for the consecutive blocks of `n`
+values of each segment between two requests — the last block of a segment possibly short, nothing
+for an empty segment; the element is reset after every block iff `reset`. -/
+theorem schedule_yor (e : El σ α β) (N : Nat) (rst bi : Bool) (hN : 0 < N) (el : σ) (ops : List (Op α)) :
+    (runOps e N rst bi true (ops ++ [.request]) (St.init el)).1.flatten =
+      (emitAll e rst el ((segments ops []).flatMap (chunks N))).1 :=
+  schedule_yor_aux e N rst bi hN ops [] el
+
+example : segments [.fill 0, .fill 1, .fill 2, .fill 3, .request, .request, .fill (4 : Nat)] [] =
+    [[0, 1, 2, 3], [], [4]] := by decide
+example : (runOps lstEl 3 true false true ([.fill 0, .fill 1, .fill 2, .fill 3, .request, .request, .fill 4] ++ [.request])
+    (St.init [])).1 = [[[0, 1, 2], [3]], [], [[4]]] := by decide
+
 /-! ### every value is accounted for exactly once -/
 
 /-- **Accounting.**  After any history of `fill`/`request` calls on a fresh adapter (any flags, also
@@ -459,6 +510,7 @@ theorem buffers_bounded_between (e : El σ α β) (N : Nat) (rst bi : Bool) (hN 
     omega
 
 example : Normal 3 (St.init ([] : List Nat) : St (List Nat) Nat (List Nat)) := init_normal 3 (by decide) []
+example : ∀ t : List Nat, ((lstEl : El (List Nat) Nat (List Nat)).req t).1.length = 1 := fun _ => rfl
 example : ([0, 1, 2, 3, 4, 5, 6].foldl (fillR lstEl 3 true false) (St.init [])).bufOut = [[0, 1, 2], [3, 4, 5]] := by
   decide
 example : ([0, 1, 2, 3, 4, 5, 6].foldl (fillR lstEl 3 true true) (St.init [])).bufIn = [3, 4, 5, 6] := by decide
